@@ -19,7 +19,7 @@ func init() {
 			"Identity monitors on the same operands: A.I=A, I.A=A (I also given with a leading batch dimension of 1), (A.B)^T = B^T.A^T, Dot(a,b)=SumAlong_last(a*b), Transpose(Transpose(x))=x. " +
 			"Non-trivial: the result has >= 2 elements; distinct = (op, operand shapes).",
 		Assumptions: []string{"At/Shape are the observation channel", "integer data keep every partial sum exactly representable; a second pass with random reals uses relative tolerance 1e-12"},
-		FloorQuick: 1500, FloorThor: 20000,
+		FloorQuick:  1500, FloorThor: 20000,
 		Run: runC04,
 	})
 }
